@@ -14,6 +14,8 @@ var checks = map[string]func(*lib.Run){
 	"C03": lib.CheckC03,
 	"C06": lib.CheckC06,
 	"C11": lib.CheckC11,
+	"C12": lib.CheckC12,
+	"C14": lib.CheckC14,
 	"C16": lib.CheckC16,
 	"C17": lib.CheckC17,
 }
